@@ -27,6 +27,10 @@ impl<'b> Request<'b> {
             _ => return Err(MalformedStatusLine),
         };
         let (headers, rest) = parse_headers(rest)?;
+        if headers.has_invalid_framing() {
+            // the body length cannot be determined: reject instead of guessing
+            return Err(MalformedHeader);
+        }
 
         Ok(Request {
             method,
